@@ -58,6 +58,8 @@ ATOMS = {
     "b=-(a+1)*2": [A("<p>b", "-(<p>a + 1)*2")],
     "a=a/2": [A("<p>a", "<p>a / 2")],
     "a=neg": [A("<p>a", "-3")],
+    "a=0": [A("<p>a", "0")],
+    "b=2": [A("<p>b", "2")],
     "b=inf": [A("<p>b", ["py", "inf"])],
     "b=-0.5": [A("<p>b", ["py", "-0.5"])],
     "t+=dt": [A("<t>", "<t> + <dt>")],
@@ -110,13 +112,15 @@ CONDS = {
     "s3:b>=2": ["s3", "<p>b", ">=", "2"],
     "s:and": ["s", "<p>a > 0 and <p>b > 0"],
     "s:not": ["s", "not <p>a > 1"],
+    "s:a": ["s", "<p>a"],                 # a bare variable as condition (truthiness), overwritten inside the block
+    "e:b-2": ["e", "<p>b - 2"],
 }
 
 # reduced alphabets for the deeper levels
 CORE_ATOMS = ["a+=1", "b=2a", "u=a+y", "b=u", "a=ifexp", "r[i]=..n", "n=0", "a=r[1]", "u=f(a)",
               "yield a", "fail", "switch aux", "restart", "raise1", "t+=dt", "y=y+a"]
-CORE_CONDS = ["s:a>1", "s3:a<b", "e3:y==0"]
-MID_ATOMS = CORE_ATOMS + ["a=b-a", "u=3", "r[i]=a*i", "n=2", "r[zero-trip]", "r[n-1]=a", "b=r[n-1]+r[0]",
+CORE_CONDS = ["s:a>1", "s3:a<b", "e3:y==0", "s:a"]
+MID_ATOMS = CORE_ATOMS + ["a=0", "a=b-a", "u=3", "r[i]=a*i", "n=2", "r[zero-trip]", "r[n-1]=a", "b=r[n-1]+r[0]",
                           "u,v=g(a,b)", "b=k(a,y=b)", "yield u", "switch init", "dt=dt/2"]
 
 INIT = [A("<p>a", "<state>y"), A("<p>b", "1"), A("<p>n", "3"), A("<p>c", "0")] + ARR_INIT
@@ -377,7 +381,10 @@ def violation_records(shape, fails):
     for sub, detail, _where in fails:
         s = shrink_shape(shape, sub)
         r, _ = check_description(s)
-        d = [f for f in r if f[0] == sub][0][1]
+        dd = [f for f in (r if r != "excluded" else []) if f[0] == sub]
+        if not dd:
+            s, dd = shape, [(sub, detail)]
+        d = dd[0][1]
         out.append({"sub": sub, "sig": "C01/%s:%s" % (sub, shape_str(s)),
                     "witness": {"shape": s, "found_as": shape_str(shape)},
                     "detail": "body: %s\n%s" % (shape_str(s), d)})
